@@ -59,6 +59,8 @@ def check_refine(case, ctx):
         obj.delta = 0.25
         held = obj.evalpts          # the caller keeps the sampled points it was given ...
         held_copy = [list(q) for q in held]
+        if len(d["P"]) % 2:
+            _ = obj.ctrlpts, (obj.weights if obj.rational else None)          # ... and has looked at the net in its split form
     kvs, szs = build.kvs_of(obj), build.sizes_of(obj)
     operations.refine_knotvector(obj, list(dens))
     if held is not None:
@@ -90,6 +92,7 @@ def check_refine(case, ctx):
     for s_ in nszs:
         total *= s_
     ctx.check(len(build.stored_points(obj)) == total, "net-count", "control net has %d points for sizes %r" % (len(build.stored_points(obj)), nszs))
+    shape.views_match(ctx, obj, "net-views", "after refine_knotvector(%r)" % (dens,))
     lat = shape.obj_lattice(obj, limit={1: 11, 2: 6, 3: 4}[pdim])
     shape.same_shape(ctx, R, obj, lat, "shape-changed", "after refine_knotvector(%r)" % (dens,))
 
